@@ -79,16 +79,16 @@ var propCfgs = map[string]propCfg{
 	"C26": {Level: "exploration", Quick: tierCfg{Runs: 4000, BudgetS: 35, MinS: 30}, Thorough: tierCfg{Runs: 400000, BudgetS: 600, MinS: 120}},
 	"C08": {Level: "exploration", Quick: tierCfg{Runs: 4000, BudgetS: 35, MinS: 30}, Thorough: tierCfg{Runs: 400000, BudgetS: 600, MinS: 120}},
 	"C11": {Level: "exploration", Quick: tierCfg{Runs: 4000, BudgetS: 40, MinS: 30}, Thorough: tierCfg{Runs: 400000, BudgetS: 600, MinS: 120}},
-	"C30": {Level: "exploration", Quick: tierCfg{Runs: 40000, BudgetS: 40, MinS: 30}, Thorough: tierCfg{Runs: 4000000, BudgetS: 600, MinS: 120}},
-	"C06": {Level: "exploration", Quick: tierCfg{Runs: 40000, BudgetS: 40, MinS: 30}, Thorough: tierCfg{Runs: 4000000, BudgetS: 600, MinS: 120}},
-	"C31": {Level: "exploration", Quick: tierCfg{Runs: 40000, BudgetS: 40, MinS: 30}, Thorough: tierCfg{Runs: 4000000, BudgetS: 600, MinS: 120}},
-	"C20": {Level: "exploration", Quick: tierCfg{Runs: 40000, BudgetS: 40, MinS: 30}, Thorough: tierCfg{Runs: 4000000, BudgetS: 600, MinS: 120}},
-	"C21": {Level: "exploration", Quick: tierCfg{Runs: 40000, BudgetS: 40, MinS: 30}, Thorough: tierCfg{Runs: 4000000, BudgetS: 600, MinS: 120}},
-	"C23": {Level: "exploration", Quick: tierCfg{Runs: 40000, BudgetS: 40, MinS: 30}, Thorough: tierCfg{Runs: 4000000, BudgetS: 600, MinS: 120}},
-	"C22": {Level: "exploration", Quick: tierCfg{Runs: 40000, BudgetS: 35, MinS: 30}, Thorough: tierCfg{Runs: 4000000, BudgetS: 600, MinS: 120}},
-	"C27": {Level: "exploration", Quick: tierCfg{Runs: 40000, BudgetS: 40, MinS: 30}, Thorough: tierCfg{Runs: 4000000, BudgetS: 600, MinS: 120}},
-	"C29": {Level: "exploration", Quick: tierCfg{Runs: 40000, BudgetS: 40, MinS: 30}, Thorough: tierCfg{Runs: 4000000, BudgetS: 600, MinS: 120}},
-	"C15": {Level: "exploration", Quick: tierCfg{Runs: 40000, BudgetS: 40, MinS: 30}, Thorough: tierCfg{Runs: 4000000, BudgetS: 600, MinS: 120}},
+	"C30": {Level: "exploration", Quick: tierCfg{Runs: 400000, BudgetS: 40, MinS: 30}, Thorough: tierCfg{Runs: 4000000, BudgetS: 600, MinS: 120}},
+	"C06": {Level: "exploration", Quick: tierCfg{Runs: 400000, BudgetS: 40, MinS: 30}, Thorough: tierCfg{Runs: 4000000, BudgetS: 600, MinS: 120}},
+	"C31": {Level: "exploration", Quick: tierCfg{Runs: 400000, BudgetS: 40, MinS: 30}, Thorough: tierCfg{Runs: 4000000, BudgetS: 600, MinS: 120}},
+	"C20": {Level: "exploration", Quick: tierCfg{Runs: 400000, BudgetS: 40, MinS: 30}, Thorough: tierCfg{Runs: 4000000, BudgetS: 600, MinS: 120}},
+	"C21": {Level: "exploration", Quick: tierCfg{Runs: 400000, BudgetS: 40, MinS: 30}, Thorough: tierCfg{Runs: 4000000, BudgetS: 600, MinS: 120}},
+	"C23": {Level: "exploration", Quick: tierCfg{Runs: 400000, BudgetS: 40, MinS: 30}, Thorough: tierCfg{Runs: 4000000, BudgetS: 600, MinS: 120}},
+	"C22": {Level: "exploration", Quick: tierCfg{Runs: 400000, BudgetS: 35, MinS: 30}, Thorough: tierCfg{Runs: 4000000, BudgetS: 600, MinS: 120}},
+	"C27": {Level: "exploration", Quick: tierCfg{Runs: 400000, BudgetS: 40, MinS: 30}, Thorough: tierCfg{Runs: 4000000, BudgetS: 600, MinS: 120}},
+	"C29": {Level: "exploration", Quick: tierCfg{Runs: 400000, BudgetS: 40, MinS: 30}, Thorough: tierCfg{Runs: 4000000, BudgetS: 600, MinS: 120}},
+	"C15": {Level: "exploration", Quick: tierCfg{Runs: 400000, BudgetS: 40, MinS: 30}, Thorough: tierCfg{Runs: 4000000, BudgetS: 600, MinS: 120}},
 	"C07": {Level: "exploration", Quick: tierCfg{Runs: 400000, BudgetS: 35, MinS: 30}, Thorough: tierCfg{Runs: 40000000, BudgetS: 600, MinS: 120}},
 	"C02": {Level: "exploration", Quick: tierCfg{Runs: 4000, BudgetS: 35, MinS: 30}, Thorough: tierCfg{Runs: 400000, BudgetS: 600, MinS: 120}},
 	"C05": {Level: "fault_enumeration", Quick: tierCfg{Runs: 96, BudgetS: 35, MinS: 30}, Thorough: tierCfg{Runs: 4000, BudgetS: 600, MinS: 120}},
